@@ -153,8 +153,7 @@ func vfH_validate() {
 }
 
 // H18-masks: nonNumeric(u) is non-zero exactly when some byte lies outside '0'..'9' (borrows make the per-byte flags
-// above the first offending byte unreliable, the code only tests for zero), its lowest set flag marks the first
-// offending byte, and match is bit containment.
+// above the first offending byte unreliable, the code only tests for zero), (the code only tests for zero).
 func vfH_masks() {
 	u := vfU64()
 	r := nonNumeric(u)
@@ -165,8 +164,6 @@ func vfH_masks() {
 		vfAssert((r>>(8*i))&0x7f == 0, "nonNumeric-only-msb")
 	}
 	vfAssert((r != 0) == any, "nonNumeric-nonzero-iff-some-non-digit")
-	m := vfU64()
-	vfAssert(match(u, m) == (u&m == m), "match")
 	vfCover("done")
 }
 
